@@ -1,18 +1,18 @@
 SPECIFICATION Spec
 CONSTANTS
-  KindSet = {"att", "syncmsg"}
-  ConcSet = {1, 3}
-  ItemSet = {1, 5}
+  KindSet = {"agg", "syncmsg"}
+  ConcSet = {3}
+  ItemSet = {1}
   NodeCounts = {3}
   DefaultConc = 16
   MaxCalls = 1
   HistClients = {}
   HistOutcomes = {}
-  Design = "asks"
+  Design = "allfailed"
   MaxLat = 2
-  CanonOuts = {}
-  ConfSets = {}
-  OtherSets = {}
+  CanonOuts = {"accept", "reject", "slowok1", "slowok2", "slowrej1", "hang"}
+  ConfSets = {{1}, {1, 2}, {2, 3}, {1, 2, 3}}
+  OtherSets = {{1}}
   RefKind = "att"
 INVARIANTS TypeOK FlagSound TimeoutSignalHeard OfferedInFull SuccessIff ReturnsByTimeout Independence ClassifiedByNow
 CHECK_DEADLOCK FALSE
